@@ -45,6 +45,8 @@ GEO = {
     "cBig": dict(type="CircularRegion", cx=50, cy=40, r=30),
     "cTouch": dict(type="CircularRegion", cx=50, cy=40, r=10),               # inscribed in rA
     "cOut": dict(type="CircularRegion", cx=50, cy=40, r=15),                 # covers rA's corners? no (d=14.14<15 yes)
+    "rFine": dict(type="RectangularRegion", x1=41.35483870967742, y1=30.123456789, x2=60.5, y2=49.99999),
+    "cFine": dict(type="CircularRegion", cx=50.123456789, cy=39.87654321, r=4.000049),
     "Foo": dict(type="Foo"),
 }
 POINTS = {
@@ -373,12 +375,14 @@ class World(object):
             ax = ev[1].lower()
             return "G1 %s%s" % (ev[1], ev[2]), {ax: f[ax] + Fr(ev[2]) * (Fr(254, 10) if f["inch"] else 1)}
         if k == "HOME":
-            axes = ev[1]
+            # ev[1]: the words of the G28 command; the axes homed are the X/Y/Z among them, or all three if
+            # none is named (a flag such as W or O does not select an axis)
+            axes = [a for a in ev[1] if a in "XYZ"] or list("XYZ")
             upd = {}
             for a in axes:
                 upd[a.lower()] = Fr(0)
                 upd["s" + a.lower()] = Fr(0)
-            return "G28 " + " ".join(axes), upd
+            return "G28 " + " ".join(ev[1]), upd
         if k == "ESET":
             unit = Fr(254, 10) if f["inch"] else Fr(1)
             return "G92 E" + ev[1], dict(e=Fr(ev[1]) * unit)
@@ -410,9 +414,9 @@ class World(object):
         if k == "RECOVER":
             return "G1 " + self._eword(f["e"] + L) + " F1800", dict(e=f["e"] + L, depth=f["depth"] - 1)
         if k == "FWRETRACT":
-            return "G10 S1", dict(fw=True)
+            return self.cfg.get("fw_retract", "G10 S1"), dict(fw=True)
         if k == "FWRECOVER":
-            return "G11 S1", dict(fw=False)
+            return self.cfg.get("fw_recover", "G11 S1"), dict(fw=False)
         if k == "ESET0":
             return "G92 E0", dict(e=Fr(0))
         if k == "ARC":
@@ -502,7 +506,8 @@ class World(object):
                 continue
             if k == "G92XYZ" and (self.episode or f["shifted"]):
                 continue
-            if k == "HOME" and (self.episode or all(f[a.lower()] == 0 for a in ev[1])):
+            if k == "HOME" and (self.episode or all(f[a.lower()] == 0 for a in
+                                                     ([a for a in ev[1] if a in "XYZ"] or "XYZ"))):
                 continue                                   # no homing while an episode is open (C03's premise)
             if k == "AT" and self.cfg.get("at_toggle_only", True):
                 act = self._at_reference(ev[1], ev[2])
@@ -526,6 +531,10 @@ class World(object):
                     continue
             if k == "NEWPRINT" and not self.cfg.get("newprint", True):
                 continue
+            if k == "SETEXT":
+                cur = tuple((e["gcode"], e["mode"]) for e in self.sv.ext)
+                if cur == tuple(ev[1]) or self.episode:
+                    continue       # the list is not changed while an episode is open (outside C06's quantifier)
             guard = self.cfg.get("guard")
             if guard is not None and not guard(self, ev):
                 continue
@@ -552,6 +561,11 @@ class World(object):
             self._event(ev[1], st)
         elif k == "SET":
             self._set(ev[1], ev[2], st)
+        elif k == "SETEXT":
+            # ev[1]: tuple of (gcode, mode) pairs replacing the configured list of extended codes
+            self.sv.ext = [dict(gcode=g, mode=m, description="") for g, m in ev[1]]
+            H.push_settings(self.plugin, self.sv)
+            self.call(self.plugin.on_event, H.Events.SETTINGS_UPDATED, {})
         elif k == "API":
             self._api(ev[1], ev[2], ev[3], ev[4], st)
         elif k == "GET":
